@@ -3,8 +3,9 @@
 usage: seeded_collect.py <ID> <check:result> [<check:result> ...]"""
 import json, os, shutil, sys
 pid = sys.argv[1]
-src = f"/tmp/seeded_out/{pid}"
-dst = f"/verif/seeded/{pid}"
+rnd = int(os.environ.get("SEED_ROUND", "1"))
+src = f"/tmp/seeded_out/{pid}" if rnd == 1 else f"/tmp/seeded{rnd}_out/{pid}"
+dst = f"/verif/seeded/{pid}" if rnd == 1 else f"/verif/seeded/{pid}/round{rnd}"
 os.makedirs(dst, exist_ok=True)
 for f in os.listdir(src):
     p = os.path.join(src, f)
@@ -22,5 +23,6 @@ if os.path.isdir(demo):
                 shutil.copy(p, os.path.join(dst, rel))
 meta = json.load(open(os.path.join(dst, "meta.json")))
 meta["confirmed_by_checks"] = {x.split(":", 1)[0]: x.split(":", 1)[1] for x in sys.argv[2:]}
+meta["round"] = rnd
 json.dump(meta, open(os.path.join(dst, "meta.json"), "w"), indent=1)
 print("collected", pid, meta["confirmed_by_checks"])
